@@ -93,6 +93,7 @@ type vxFS struct {
 	// fault injection: while budget > 0 every call asks a fresh symbolic boolean whether it fails now
 	budget    int
 	faultSkip []string // ops that never fail by injection
+	quietStat bool     // pure queries (lstat/stat/readlink) are not made to fail once a mutating call has succeeded
 	faultOp   string   // op of the (last) injected failure
 	faultIdx  int      // its index in the log
 	faultErr  syscall.Errno
@@ -329,6 +330,9 @@ func (fs *vxFS) fault(i int) (syscall.Errno, bool) {
 		if s == op {
 			return 0, false
 		}
+	}
+	if fs.quietStat && (op == "lstat" || op == "stat" || op == "readlink") && fs.mutationsDone() > 0 {
+		return 0, false
 	}
 	if !vxBool("fault") {
 		return 0, false
@@ -1032,3 +1036,36 @@ func vxSamePath(a, b string) bool {
 	}
 	return true
 }
+
+// vxMetaAgrees: the relation C16 states between what is reported for an object (a stat record / qid) and the
+// object itself: directory and symlink bits, length, permission bits, mtime, name, qid path. Fields the statement
+// does not mention (qid version, atime, owner names, dev/type) are not compared. DMSYMLINK exists only in 9P2000.u.
+func vxMetaAgrees(d *Dir, name string, in *vxInode, dotu bool) bool {
+	isDir := in.mode&os.ModeDir != 0
+	isLink := in.mode&os.ModeSymlink != 0
+	ok := vxAll(
+		(d.Qid.Type&QTDIR != 0) == isDir,
+		(d.Mode&DMDIR != 0) == isDir,
+		(d.Qid.Type&QTSYMLINK != 0) == isLink,
+		d.Length == uint64(in.size),
+		d.Mode&0777 == uint32(in.mode)&0777,
+		d.Mtime == uint32(in.mtime),
+		d.Name == name,
+		d.Qid.Path == in.ino)
+	if dotu {
+		ok = vxAll(ok, (d.Mode&DMSYMLINK != 0) == isLink)
+	}
+	return ok
+}
+
+// vxKindType: the qid type bits that go with a model object kind.
+func vxKindType(kind int) uint8 {
+	switch kind {
+	case vxKDir:
+		return QTDIR
+	case vxKLink:
+		return QTSYMLINK
+	}
+	return 0
+}
+
